@@ -41,6 +41,8 @@ func (sp *Spec) DeclFiles() []string {
 
 func mkName(t *Type) string {
 	switch t.Kind {
+	case KCtx:
+		return "mk_ctx"
 	case KExt:
 		return "mk_" + strings.ReplaceAll(t.Name, ".", "_")
 	case KPlainStr:
@@ -139,6 +141,7 @@ func (sp *Spec) renderTypes() string {
 			fmt.Fprintf(&b, "\t}\n}\n\n")
 		}
 	}
+	b.WriteString("// termCtx is a context.Context that carries a term (a provider may supply the context itself).\ntype termCtx struct {\n\tcontext.Context\n\tterm string\n}\n\nfunc (c termCtx) VerifTerm() string { return c.term }\n\nfunc mk_ctx(t string) context.Context { return termCtx{Context: context.Background(), term: t} }\n\n")
 	b.WriteString("// Failure is an alias of error: providers may spell their error result either way.\ntype Failure = error\n\n")
 	// termOf: the term a value carries
 	b.WriteString("func termOf(v any) string {\n\tswitch x := v.(type) {\n\tcase nil:\n\t\treturn \"<nil>\"\n")
@@ -159,7 +162,7 @@ func (sp *Spec) renderTypes() string {
 			fmt.Fprintf(&b, "\tcase %s:\n\t\treturn simrt.TermOfInt(int(x))\n", t.Name)
 		}
 	}
-	b.WriteString("\tcase string:\n\t\treturn orZero(x)\n\tcase int:\n\t\treturn simrt.TermOfInt(x)\n\tcase context.Context:\n\t\treturn \"CTX\"\n\t}\n\treturn \"<unknown>\"\n}\n\n")
+	b.WriteString("\tcase string:\n\t\treturn orZero(x)\n\tcase int:\n\t\treturn simrt.TermOfInt(x)\n\tcase context.Context:\n\t\tif tc, ok := x.(interface{ VerifTerm() string }); ok {\n\t\t\treturn tc.VerifTerm()\n\t\t}\n\t\treturn \"CTX\"\n\t}\n\treturn \"<unknown>\"\n}\n\n")
 	b.WriteString("func orZero(s string) string {\n\tif s == \"\" {\n\t\treturn \"<zero>\"\n\t}\n\treturn s\n}\n")
 	return b.String()
 }
